@@ -8,6 +8,7 @@ sequences; CPython (`ast.parse`) or the parser under test JUDGES them, so a wron
 from __future__ import annotations
 
 import keyword
+import os
 import random
 import sys
 
@@ -22,7 +23,8 @@ TERMINALS = {
 INF = 10**6
 
 
-def load_grammar(path, repo="/repo"):
+def load_grammar(path, repo=None):
+    repo = repo or os.environ.get("VERIF_REPO", "/repo")
     if repo not in sys.path:
         sys.path.insert(0, repo)
     from pegen.build import build_parser
@@ -324,7 +326,8 @@ def render(tokens):
     return "".join(out)
 
 
-def programs(path, start="file", per_alt=2, seed=0, repo="/repo", budget=14, limit=None):
+def programs(path, start="file", per_alt=2, seed=0, repo=None, budget=14, limit=None):
+    repo = repo or os.environ.get("VERIF_REPO", "/repo")
     """[(rule, alt index, text)]: for every derivable alternative of every rule a shortest-context program that uses it"""
     rng = random.Random(seed)
     g = load_grammar(path, repo)
